@@ -88,6 +88,7 @@ theorem foldl_insertAt (st : Stmt) (i : Nat) (d : Step) (hd : d.isDeriv = true) 
 def finishS (sch : Schema) (s : Store) (st : Stmt) : Fin → Out
   | .save v => save sch s v
   | .create v => insertRow sch s st.oc v
+  | .createFrom src v => insertFrom sch s st.oc src v
   | .firstOrInit inl => firstOrInit sch s (st.conds ++ inl) st.attrs st.assigns
   | .firstOrCreate inl => firstOrCreate sch s (st.conds ++ inl) st.conds st.attrs st.assigns
 
@@ -451,6 +452,61 @@ theorem insertRow_wf {sch : Schema} (hw : sch.WF) {s : Store} (hs : s.WF) (rule 
             · cases hres
         simp [applyAsg, h0, hold]
 
+/-- a map that names the primary key gives it a non-zero value (an explicit rowid 0 is outside the key space) -/
+def Src.okFor : Src → Row → Prop
+  | .struct _ _, _ => True
+  | .map keys, v => keys.contains 0 = true → v 0 ≠ 0
+
+theorem listed_key {sch : Schema} (hw : sch.WF) {src : Src} {v : Row} (ho : src.okFor v)
+    (hl : src.listed sch v 0 = true) : src.fill sch v 0 ≠ 0 := by
+  have h0 := kind0 hw
+  cases src with
+  | struct sel om =>
+    simp only [Src.listed, h0, Bool.and_eq_true, bne_iff_ne] at hl
+    simp [Src.fill, Src.listed, h0, fillCreate, hl.2]
+  | map keys =>
+    simp only [Src.listed] at hl
+    simpa [Src.fill] using ho hl
+
+theorem insertFrom_wf {sch : Schema} (hw : sch.WF) {s : Store} (hs : s.WF) (rule : Option Rule)
+    (hr : ∀ r, rule = some r → r.noPk) (src : Src) (v : Row) (ho : src.okFor v) :
+    (insertFrom sch s rule src v).store.WF := by
+  have h0 := kind0 hw
+  have hk : 1 ≤ proposedIns sch s.next (src.listed sch v) (src.fill sch v) 0 := by
+    simp only [proposedIns, h0]
+    split
+    · rename_i hl
+      have := listed_key hw ho hl
+      omega
+    · exact hs.1
+  simp only [insertFrom]
+  split
+  · exact ins_wf hs hk rfl
+  · rename_i old hex
+    have hold := (hs.2 _ _ hex).1
+    split
+    · exact hs
+    · rename_i r
+      split
+      · exact hs
+      · rename_i asg hres
+        apply put_wf hs hex
+        have ha : asg 0 = none := by
+          cases r with
+          | doNothing => simp [resolveIns] at hres
+          | doUpdates as =>
+            simp only [resolveIns, Option.some.injEq] at hres
+            subst hres
+            exact hr _ rfl
+          | updateAll =>
+            simp only [resolveIns] at hres
+            split at hres
+            · simp only [Option.some.injEq] at hres
+              subst hres
+              simp [updateAllIns, h0]
+            · cases hres
+        simp [applyAsg, ha, hold]
+
 theorem save_wf {sch : Schema} (hw : sch.WF) {s : Store} (hs : s.WF) (v : Row) : (save sch s v).store.WF := by
   by_cases hz : v 0 = 0
   · rw [save_zero hw hs hz]
@@ -557,11 +613,17 @@ theorem run_ok (cfg : CloneCfg) (steps : List Step) :
     intro h ho hall
     exact ih _ (step_ok cfg ho (hall st (by simp))) (fun x hx => hall x (by simp [hx]))
 
+/-- the finisher's own argument is admissible -/
+def Fin.ok : Fin → Prop
+  | .createFrom src v => src.okFor v
+  | _ => True
+
 theorem finish_wf {cfg : CloneCfg} {sch : Schema} (hw : sch.WF) {s : Store} (hs : s.WF) {h : Handle}
-    (ho : h.stmt.ok) (f : Fin) : (finish cfg sch s h f).store.WF := by
+    (ho : h.stmt.ok) (f : Fin) (hf : f.ok) : (finish cfg sch s h f).store.WF := by
   cases f with
   | save v => exact save_wf hw hs v
   | create v => exact insertRow_wf hw hs _ (getInstance_ok cfg ho).1 v
+  | createFrom src v => exact insertFrom_wf hw hs _ (getInstance_ok cfg ho).1 src v hf
   | firstOrInit inl =>
     simp only [finish, firstOrInit]
     split <;> exact hs
